@@ -230,6 +230,45 @@ func runCurve() {
 		x25519Events(tr, r, thorough)
 	}
 
+	// ---- C02: the library's own public keys and R values, audited in TLA+ (no trust in refmodel's scalar mult) ---
+	if prop == "C02" {
+		nk := 2
+		if thorough {
+			nk = 12
+		}
+		for i := 0; i < nk; i++ {
+			seed := r.Bytes(32)
+			if i == 0 {
+				seed = make([]byte, 32)
+			}
+			priv := sNewKey(tr, seed)
+			hs := sha512.Sum512(seed)
+			a := new(big.Int).Mod(refmodel.Clamp(hs[:32]), refmodel.L)
+			di := refmodel.Decode(priv[32:])
+			if di.OK {
+				_, wit := witnessOf(di)
+				tr.Emit(map[string]interface{}{"op": "audit-iso", "bytes": hx.Ints(priv[32:]), "k": hx.Ints(refmodel.LE(a, 32)), "t": 0, "witness": wit, "what": "public key = Enc([a]B)", "cfg": cfg})
+			} else {
+				note(tr, "NewKeyFromSeed returned an undecodable public key")
+			}
+			msg := r.Bytes(33)
+			sig, err := sSign(tr, priv, nil, msg, &ed25519.Options{})
+			if err == nil && len(sig) == 64 {
+				h := sha512.New()
+				h.Write(hs[32:])
+				h.Write(msg)
+				rn := new(big.Int).Mod(refmodel.FromLE(h.Sum(nil)), refmodel.L)
+				dr := refmodel.Decode(sig[:32])
+				if dr.OK {
+					_, wit := witnessOf(dr)
+					tr.Emit(map[string]interface{}{"op": "audit-iso", "bytes": hx.Ints(sig[:32]), "k": hx.Ints(refmodel.LE(rn, 32)), "t": 0, "witness": wit, "what": "R = Enc([r]B)", "cfg": cfg})
+				} else {
+					note(tr, "Sign returned an undecodable R")
+				}
+			}
+		}
+	}
+
 	// ---- audits (validated bit by bit as TLC behaviours) -----------------------------------
 	na := 4
 	if thorough {
